@@ -73,6 +73,17 @@ pub fn programs_from_tlc(path: &str, rng: &mut Rng) -> Vec<(Program, Layout)> {
             continue;
         }
         let j: serde_json::Value = serde_json::from_str(line).expect("program json");
+        if j.get("cls").is_some() {
+            // a single (ill-formed) instruction shape from spec/MC_Asm.tla: wrap it in a minimal program
+            let ins = crate::checks2::ins_from_json(&j);
+            let data = vec![DataItem::Def { label: None, dir: "db", form: DataForm::Zero(4) }, DataItem::Def { label: Some("vdat".into()), dir: "dw", form: DataForm::Num(5) }];
+            let items = vec![Item::Label("vtgt".into()), Item::Proc { name: "vprc".into(), body: vec![Item::Ins(Ins::Ctl { op: "nop" })] }, Item::Label("start".into()), Item::Ins(Ins::Ctl { op: "nop" }), Item::Bad(ins, String::new())];
+            let mut lay = Layout::plain();
+            let q = v.len();
+            lay.force = Some(Spelling { case: if q % 2 == 0 { Case::Lower } else { Case::Upper }, radix: [Radix::Dec, Radix::Hex, Radix::Bin][q % 3], wide: q % 5 == 0, nl: false });
+            v.push((Program { data, items, interp: false, stdin: Vec::new(), note: "tlc-badshape".into() }, lay));
+            continue;
+        }
         let stdin: Vec<ScriptLine> = j["stdin"].as_array().unwrap().iter().map(|s| {
             let raw = s["raw"].as_str().unwrap().trim_end_matches('\n').to_string();
             let cls: &'static str = match s["cls"].as_str().unwrap() { "next" => "next", "quit" => "quit", "print" => "print", _ => "garbage" };
